@@ -227,6 +227,9 @@ func checkExtract(c ExtractCase) string {
 	if e := extractRing[extractAt]; e.got != e.want {
 		return fmt.Sprintf("a string returned by GetOnlyExplainErr %d calls ago changed afterwards: was %q, now reads %q", len(extractRing), e.want, e.got)
 	}
+	if extractRing[extractAt].want != "" {
+		ev.Class("extraction results re-read after 509 later calls")
+	}
 	extractRing[extractAt] = extractKept{got: got, want: strings.Clone(want)}
 	extractAt = (extractAt + 1) % len(extractRing)
 	return ""
